@@ -1,6 +1,7 @@
 import ChythonModel.Proofs.C15Compose
 import ChythonModel.Proofs.C15Format
 import ChythonModel.Proofs.C15Equivariant
+import ChythonModel.Proofs.C15Read
 import ChythonModel.Model.C15CgrTokens
 import ChythonModel.Model.C15Read
 /-!
@@ -278,5 +279,80 @@ example :
     (compose r p).toOption.map (·.centerAtoms) = some [2] ∧
     (compose (rename (fun n => 2 * n + 5) r) (rename (fun n => 2 * n + 5) p)).toOption.map (·.centerAtoms) = some [9] := by
   decide
+
+/-! ## part 6 — reading back the written signature restores the roles and the molecules
+
+Molecules are given as lists of component strings (`join '.'` of them is the molecule signature, their number the
+component count — `sigOf`). `WrittenOK`: every molecule has ≥ 1 component, components are non-empty and contain no
+`.` and no `>` (true of the molecule writer's output; C02). -/
+
+/-- `'.'.join(pieces).split('.')` / `'>'.join(...)`: splitting a joined string gives the pieces back -/
+theorem split_join_inverse (sep : Nat) (pieces : List Str) (h1 : pieces ≠ []) (h2 : ∀ p ∈ pieces, sep ∉ p) :
+    splitOn sep (join sep pieces) = pieces :=
+  splitOn_join sep pieces h1 h2
+
+/-- **slices_partition.** The three slices `new[:lr]`, `new[lr:mc-lp]`, `new[mc-lp:]` taken by the reader partition the
+    array of contracted molecules for every `lr + lp ≤ mc` — in particular for a reaction without products
+    (`lp = 0`), where the former `new[-lp:]` / `new[lr:-lp]` returned everything / nothing (Findings/C15.lean). -/
+theorem slices_partition {α : Type} (n3 : List α) (lr lp : Nat) (h : lr + lp ≤ n3.length) :
+    n3.take lr ++ ((n3.take (n3.length - lp)).drop lr) ++ n3.drop (n3.length - lp) = n3 :=
+  ChythonModel.Proofs.C15.slices_partition n3 lr lp h
+
+/-- **contraction_restores_molecules.** For all role lists: contracting the fragments of the three roles with the
+    fragment groups the writer emits gives back exactly the molecules of each role, in order. -/
+theorem contraction_restores_molecules (R A P : List (List Str)) (hne : ∀ m ∈ R ++ A ++ P, m ≠ []) :
+    contractRoles R.flatten A.flatten P.flatten (groupsFrom 0 (R ++ A ++ P)) =
+      .ok (R.map (join chDot), A.map (join chDot), P.map (join chDot)) :=
+  contractRoles_writer R A P hne
+
+/-- the fragment groups of the writer model are `groupsFrom 0`, its role strings the joined molecule signatures -/
+theorem writer_groups (rad : List Str → List Bool) (R A P : List (List Str)) :
+    (formatCore true (R.map (sigOf rad)) (A.map (sigOf rad)) (P.map (sigOf rad))).contract = groupsFrom 0 (R ++ A ++ P) ∧
+    (formatCore true (R.map (sigOf rad)) (A.map (sigOf rad)) (P.map (sigOf rad))).roles
+      = [R.map (join chDot), A.map (join chDot), P.map (join chDot)] :=
+  ⟨formatCore_contract rad R A P, formatCore_roles rad R A P⟩
+
+/-- sorting is the only difference between `!c` and the default: the default signature is the `!c` signature of the
+    sorted roles, so the theorems below apply to it with `R A P` the sorted role lists -/
+theorem format_default_is_sorted_keep (R A P : List MolSig) :
+    formatCore false R A P = formatCore true (sortRole false R) (sortRole false A) (sortRole false P) := rfl
+
+/-- Full statement (text level): reading the complete written text — signature, blank, CXSMILES block — restores the
+    role partition. -/
+def RxnReadWriteRolesFull : Prop :=
+  ∀ (rad : List Str → List Bool) (R A P : List (List Str)), WrittenOK R → WrittenOK A → WrittenOK P → R ++ A ++ P ≠ [] →
+    (∀ m ∈ R ++ A ++ P, ∀ f ∈ m, ∀ c ∈ f, isSpace c = false) →
+    readRxn (formatRxn true false (R.map (sigOf rad)) (A.map (sigOf rad)) (P.map (sigOf rad))) =
+      .roles (R.map (join chDot)) (A.map (join chDot)) (P.map (join chDot))
+
+/-- **rxn_read_write_roles_partial.** Proved part of `RxnReadWriteRolesFull`: for all role lists (any number of
+    molecules per role incl. empty roles — no products, no reagents —, any number of components per molecule) the
+    reader applied to the written signature string and to the written fragment groups returns the written roles and
+    molecules. Missing for the full statement: that rendering the groups as `|…,f:0.1,3.4|` and re-parsing them
+    (`split()`, regular expression `cx_fragments`, `int()`) is the identity — that step is tied by the correspondence
+    stream `read` (flavour `written`) only. -/
+theorem rxn_read_write_roles_partial (rad : List Str → List Bool) (R A P : List (List Str))
+    (hR : WrittenOK R) (hA : WrittenOK A) (hP : WrittenOK P) (hne : R ++ A ++ P ≠ []) :
+    let out := formatCore true (R.map (sigOf rad)) (A.map (sigOf rad)) (P.map (sigOf rad))
+    readSmi (join chGt (out.roles.map (join chDot))) (some out.contract) =
+      .roles (R.map (join chDot)) (A.map (join chDot)) (P.map (join chDot)) := by
+  intro out
+  have h1 : out.contract = groupsFrom 0 (R ++ A ++ P) := formatCore_contract rad R A P
+  have h2 : out.roles = [R.map (join chDot), A.map (join chDot), P.map (join chDot)] := formatCore_roles rad R A P
+  rw [h2]
+  exact read_written R A P hR hA hP hne out.contract h1
+
+/-- non-trivial instance: `C.C>O>` with the reactant a two-component molecule and no products
+    (the input class of the repaired defect) -/
+example :
+    let c : Str := [67]
+    let o : Str := [79]
+    WrittenOK [[c, c]] ∧ WrittenOK [[o]] ∧ WrittenOK ([] : List (List Str)) ∧
+    readSmi (join chGt [join chDot [join chDot [c, c]], join chDot [join chDot [o]], join chDot []])
+      (some (groupsFrom 0 [[c, c], [o]])) = .roles [[67, 46, 67]] [[79]] [] := by
+  refine ⟨?_, ?_, ?_, by decide⟩
+  · intro m hm; simp at hm; subst hm; refine ⟨by simp, ?_⟩; intro f hf; simp at hf; subst hf; decide
+  · intro m hm; simp at hm; subst hm; refine ⟨by simp, ?_⟩; intro f hf; simp at hf; subst hf; decide
+  · intro m hm; cases hm
 
 end ChythonModel.Props.C15
